@@ -168,6 +168,56 @@ Section Session.
       + intros Hn. rewrite R4 by (intros Hx; apply Hn; right; exact Hx). apply Q1. intros ->. apply Hn. left. reflexivity.
   Qed.
 
+  (* what unbinding does to packets: unbound operations keep theirs, newly unbound ones carry packet id 0 *)
+  Definition unb_pkt (o o' : op) : Prop :=
+    (op_pid o = None -> op_pid o' = None /\ op_packet o' = op_packet o) /\
+    (op_pid o' = None -> op_pid o <> None -> forall pb', op_packet o' = Publish pb' -> pub_pid pb' = 0).
+
+  Lemma unbind_packet (s : state) id i o' :
+    getop (unbind s id) i = Some o' -> exists o, getop s i = Some o /\ unb_pkt o o'.
+  Proof.
+    unfold unbind, getop. destruct (lookup id (s_ops s)) as [o|] eqn:Hid.
+    2:{ intros H. exists o'. split; [exact H|]. unfold unb_pkt. split; [tauto|congruence]. }
+    set (s1 := match op_pid o with
+               | Some pid => match with_pid 0 (op_packet o) with
+                             | Ok p' => s <| s_alloc := remove pid (s_alloc s) |>
+                                          <| s_ops := update id (fun o => o <| op_pid := None |> <| op_packet := p' |>) (s_ops s) |>
+                             | _ => s end
+               | None => s end).
+    assert (H1 : forall j o1, lookup j (s_ops s1) = Some o1 -> exists o0, lookup j (s_ops s) = Some o0 /\ unb_pkt o0 o1).
+    { intros j o1 Hj. unfold s1 in Hj. destruct (op_pid o) as [pid|] eqn:Hp.
+      - destruct (with_pid 0 (op_packet o)) as [p'|k|site] eqn:Hwp.
+        + cbn in Hj. apply lookup_update_inv in Hj. destruct Hj as (o0 & Ho0 & [[Hne ->]|[-> ->]]).
+          * exists o0. split; [exact Ho0|]. unfold unb_pkt. split; [tauto|congruence].
+          * assert (o0 = o) by congruence. subst o0. exists o. split; [exact Hid|]. unfold unb_pkt. cbn. split; [congruence|].
+            intros _ _ pb' Hpb. destruct (with_pid_ok _ _ _ Hwp) as (P1 & _). rewrite Hpb in P1. cbn in P1. congruence.
+        + exists o1. split; [exact Hj|]. unfold unb_pkt. split; [tauto|congruence].
+        + exists o1. split; [exact Hj|]. unfold unb_pkt. split; [tauto|congruence].
+      - exists o1. split; [exact Hj|]. unfold unb_pkt. split; [tauto|congruence]. }
+    clearbody s1. cbn. intros H. apply lookup_update_inv in H. destruct H as (o1 & Ho1 & Hcase).
+    destruct (H1 i o1 Ho1) as (o0 & Ho0 & U1 & U2). exists o0. split; [exact Ho0|].
+    assert (E : op_pid o' = op_pid o1 /\ op_packet o' = op_packet o1) by (destruct Hcase as [[_ ->]|[_ ->]]; cbn; tauto).
+    destruct E as (E1 & E2). unfold unb_pkt. rewrite E1, E2. split; assumption.
+  Qed.
+
+  Lemma unb_pkt_trans o o1 o' : unb_pkt o o1 -> unb_pkt o1 o' -> unb_pkt o o'.
+  Proof.
+    intros (A1 & A2) (B1 & B2). unfold unb_pkt. split.
+    - intros Hp. destruct (A1 Hp) as (A3 & A4). destruct (B1 A3) as (B3 & B4). split; congruence.
+    - intros Hp' Hp pb' Hpb. destruct (op_pid o1) eqn:E1.
+      + apply (B2 Hp'); [congruence|exact Hpb].
+      + destruct (B1 eq_refl) as (_ & B4). apply (A2 eq_refl Hp). congruence.
+  Qed.
+
+  Lemma unbind_all_packet ids : forall (s : state) i o',
+    getop (fold_left unbind ids s) i = Some o' -> exists o, getop s i = Some o /\ unb_pkt o o'.
+  Proof.
+    induction ids as [|a rest IH]; intros s i o' H; cbn [fold_left] in H.
+    - exists o'. split; [exact H|]. unfold unb_pkt. split; [tauto|congruence].
+    - destruct (IH _ _ _ H) as (o1 & Ho1 & U1). destruct (unbind_packet s a i o1 Ho1) as (o & Ho & U0).
+      exists o. split; [exact Ho|]. eapply unb_pkt_trans; eauto.
+  Qed.
+
   (* clearing the packet-id table commutes with unbinding *)
   Definition but_aq2 (s : state) :=
     (s_st s, s_pwc s, s_ops s, s_tmo s, s_uq s, s_rq s, s_hq s, s_cur s, s_enc s, s_ppub s, s_pnon s, s_pwco s,
